@@ -35,20 +35,36 @@ def submit_order(dag, throttle):
     import scripted as S
     S.install()
     try:
-        d2 = copy.deepcopy(dag)
-        d2._submission_throttle = throttle
-        d2.set_adapter({"type": "scripted"})
-        names = [k for k in d2.values if k != "_source"]
-        S.WORLD.reset(subs=[], sched={k: True for k in names})
         order = []
-        for _poll in range(3 * len(names) + 3):
-            S.WORLD.events = []
-            S.WORLD.poll_code = "OK"
-            S.WORLD.poll_reports = [(k, "FINISHED") for k in names if k in d2.in_progress]
-            v = d2.execute_ready_steps()
-            order.extend(ev[1] for ev in S.WORLD.events if ev[0] == "submit")
-            if v.name != "RUNNING":
-                break
+        # three scheduler histories, each told in the order of the instance list (which does not
+        # depend on the hash seed): every job succeeds at once; every job of the first round is lost
+        # to a hardware failure once and is resubmitted; every job of the first round runs into its
+        # time limit once (restarted where the step has a restart command)
+        for history in ("success", "hwfailure-once", "timeout-once"):
+            d2 = copy.deepcopy(dag)
+            d2._submission_throttle = throttle
+            d2.set_adapter({"type": "scripted"})
+            names = [k for k in d2.values if k != "_source"]
+            S.WORLD.reset(subs=[], sched={k: True for k in names},
+                          restart={k: bool(d2.values[k].step.run.get("restart")) for k in names})
+            order.append("#" + history)
+            hit = set()
+            for _poll in range(4 * len(names) + 4):
+                S.WORLD.events = []
+                S.WORLD.poll_code = "OK"
+                reps = []
+                for k in names:
+                    if k in d2.in_progress:
+                        if history != "success" and k not in hit:
+                            hit.add(k)
+                            reps.append((k, "HWFAILURE" if history == "hwfailure-once" else "TIMEDOUT"))
+                        else:
+                            reps.append((k, "FINISHED"))
+                S.WORLD.poll_reports = reps
+                v = d2.execute_ready_steps()
+                order.extend(ev[1] for ev in S.WORLD.events if ev[0] == "submit")
+                if v.name != "RUNNING":
+                    break
         return order
     finally:
         S.uninstall()
